@@ -33,7 +33,9 @@ Obs(res, results, n, st2) == [res |-> res, results |-> results, n |-> n, t |-> s
 IsStmt(it) == it.k \in {"ins", "sel", "fail", "cmton", "cmtset", "status"}
 \* "call": CALL foo() inside a script - a statement that matches nop_regexes when the option is on (answered with the status
 \* row, nothing executed) and cannot run otherwise (it fails like any failing statement); comments next to it are not part of it
-Eff(it, nop) == IF it.k = "call" THEN [k |-> IF nop THEN "status" ELSE "fail"] ELSE it
+\* "insvar": INSERT INTO t VALUES ($vt_v) with the session variable vt_v = 'abc' set before: an insert of the plain payload
+Eff(it, nop) == IF it.k = "call" THEN [k |-> IF nop THEN "status" ELSE "fail"]
+                ELSE IF it.k = "insvar" THEN [k |-> "ins", p |-> "plain"] ELSE it
 EffItems(items, nop) == [j \in 1..Len(items) |-> Eff(items[j], nop)]
 CmtOf(it, c) == IF it.k = "cmton" THEN "c1" ELSE IF it.k = "cmtset" THEN "c2" ELSE c
 \* the comment after running items (up to the first failure) from comment c
@@ -74,13 +76,15 @@ Steps(st, op, D) ==
 
 \* ---- vocabulary ----
 CONSTANTS MaxItems, PayloadsUsed, DataScripts, NopUsed
-Items == [k : {"ins"}, p : PayloadsUsed] \cup [k : {"sel", "fail", "lc", "bc", "empty", "ws", "call"}]
+Items == [k : {"ins"}, p : PayloadsUsed] \cup [k : {"sel", "fail", "lc", "bc", "empty", "ws", "call", "insvar"}]
+\* tx: the script runs between BEGIN and COMMIT issued on the same connection - what it did before a failing statement is kept,
+\*     exactly as when the statements are executed one by one (the table is read after the COMMIT)
 \* empty: with nop = FALSE, whether the instance is made with nop_regexes = [] (an empty pattern set matches nothing) or None;
 \* rc: the remove_comments argument of execute_string (comments are not statements either way)
 CmtItems == [k : {"cmton", "cmtset"}]
 Ops(st) ==
   IF ~st.inst THEN {o \in [k : {"inst"}, nop : BOOLEAN, empty : BOOLEAN] : o.nop => ~o.empty}
-  ELSE (IF DataScripts THEN [k : {"script"}, items : SeqsUpTo(Items, MaxItems), via : {"string", "onebyone"}, cc : {"tuple", "dict"}, rc : BOOLEAN] ELSE {})
+  ELSE (IF DataScripts THEN [k : {"script"}, items : SeqsUpTo(Items, MaxItems), via : {"string", "onebyone"}, cc : {"tuple", "dict"}, rc : BOOLEAN, tx : BOOLEAN] ELSE {})
        \cup [k : {"script"}, items : SeqsUpTo(CmtItems, 1) \ {<<>>}, via : {"string", "onebyone"}, cc : {"tuple"}, rc : {FALSE}]
        \cup [k : {"nopstmt"}, w : {"call", "call_ws", "call_upper", "grant", "ins_callx", "ins_granty", "sel_grantz"} \cap NopUsed]
 
